@@ -87,6 +87,18 @@ def judge_case(part, c, obs):
         if h.panics and all('fail to get collection' in p for p in h.panics):
             obs['benign-startup-tick-panics'] += len(h.panics)
             h.panics = []
+    # a panic raised inside the engine's own code while it runs a scenario is behaviour of the engine, not a failure of
+    # the harness: in the scheduler loop it ends all progress for every process.  C01 (progress) reports it; for the
+    # other properties the run stays inconclusive
+    if 'C01' in (part.get('props') or []):
+        eng = [p for h in c['hist'] for p in h.panics if '/acts/src/' in p or '/store/sqlite/src/' in p]
+        if eng:
+            m_ = re.search(r'((?:acts|store/sqlite)/src/[\w/]+\.rs)', eng[0])
+            msg = eng[0].split('\n')[-1][:100]
+            short = re.sub(r'[0-9A-Za-z_-]{8,}|[0-9]+', '#', msg)[:60]
+            v = {'prop': 'C01', 'rule': 'engine-panic', 'sig': f"C01/engine-panic:{m_.group(1) if m_ else 'unknown'}:{short}",
+                 'detail': f"the engine panicked while running the scenario: {eng[0][:220]!r}; a panic in the scheduler loop ends the progress of every process", 'scenario': c['scenarios'][0]['id']}
+            return [v], True
     bad = [h for h in c['hist'] if not h.conclusive()]
     if bad:
         for h in bad:
